@@ -48,6 +48,9 @@ type Sched struct {
 	// up: every task is released and runs freely to its end; the run decides
 	// nothing.
 	Abandoned bool
+	// ExitOnStall: instead of releasing the tasks, end the worker process
+	// through OnStallExit (scenarios whose tasks share harness state).
+	ExitOnStall bool
 	AfterStep  func(step int, task int, site int) bool // false = stop the run (oracle fired)
 	stopped    bool
 	killTimer  *time.Timer
@@ -67,6 +70,16 @@ type Task struct {
 	waitKind int
 	waitArg  int
 }
+
+// StallMillis is how long the running task may go without reaching a yield
+// point, a wait or its end before the scheduler concludes that it is blocked on
+// a lock held by a parked task. Long enough that a loaded machine never gets
+// there (a real lock-up is permanent, so waiting costs nothing but time).
+var StallMillis = 30000
+
+// OnStallExit is installed by the engine framework: it writes the batch result
+// collected so far and ends the process with status 0.
+var OnStallExit func()
 
 // Active is the running scheduler (nil = simulator inactive: Yield is a nil check).
 var Active *Sched
@@ -246,7 +259,7 @@ func (s *Sched) abandon(running int) {
 		}
 	}
 	for alive > 0 {
-		b, ok := rawReadTimeout(s.ctlR, 45000)
+		b, ok := rawReadTimeout(s.ctlR, 120000)
 		if !ok {
 			fmt.Fprintln(os.Stderr, "simhook: scheduler watchdog: tasks did not finish after the schedule was abandoned")
 			os.Exit(2)
@@ -311,8 +324,8 @@ func (s *Sched) Run() {
 	}
 	Active = s
 	// watchdog: a stalled hand-off is harness trouble, never a violation
-	s.killTimer = time.AfterFunc(60*time.Second, func() {
-		fmt.Fprintln(os.Stderr, "simhook: scheduler watchdog: no progress for 60 s (a task is blocked outside a yield point)")
+	s.killTimer = time.AfterFunc(180*time.Second, func() {
+		fmt.Fprintln(os.Stderr, "simhook: scheduler watchdog: no progress for 180 s (a task is blocked outside a yield point)")
 		os.Exit(2)
 	})
 	lastSites := make([]int, len(s.tasks))
@@ -360,7 +373,12 @@ func (s *Sched) Run() {
 		s.quantum = q
 		s.inSched = false
 		rawWrite(t.w, 'g')
-		if _, ok := rawReadTimeout(s.ctlR, 4000); !ok {
+		if _, ok := rawReadTimeout(s.ctlR, StallMillis); !ok {
+			if s.ExitOnStall && OnStallExit != nil {
+				// tasks that share unsynchronised harness state cannot be left
+				// to run freely: the worker process hands in what it has and ends
+				OnStallExit()
+			}
 			s.abandon(ti)
 			break
 		}
@@ -368,7 +386,7 @@ func (s *Sched) Run() {
 		s.cur = -1
 		s.Steps++
 		s.SeqHash = Mix(s.SeqHash, uint64(ti), uint64(t.LastSite+1))
-		s.killTimer.Reset(60 * time.Second)
+		s.killTimer.Reset(180 * time.Second)
 		if !s.stopped && s.AfterStep != nil {
 			if !s.AfterStep(s.Steps, ti, t.LastSite) {
 				s.stopped = true
